@@ -88,6 +88,10 @@ def run(sid, tier='quick', props=None):
     finally:
         sh(['git', 'checkout', '--', '.'], cwd='/repo')
         assert sh(['git', 'status', '--porcelain'], cwd='/repo')[1].strip() == ''
+        # the evidence files and replays written against the patched tree are not evidence about /repo
+        sh(['git', 'checkout', '--', 'evidence'], cwd=ROOT)
+        for prop in props:
+            shutil.rmtree(os.path.join(ROOT, 'replays', prop), ignore_errors=True)
     caught = any(r['exit'] == 1 and r['violations'] for r in results.values())
     json.dump({'tier': tier, 'caught': caught, 'checks': results}, open(os.path.join(d, 'result.json'), 'w'), indent=1)
     print(sid, 'CAUGHT' if caught else 'MISSED', json.dumps(results)[:700])
